@@ -1,4 +1,259 @@
 package env
 
-func (e *Env) stepStatefulSets() string { return "" }
-func (e *Env) stepDaemonSets() string   { return "" }
+import (
+	"crypto/sha1"
+	"encoding/hex"
+	"encoding/json"
+	"fmt"
+	"sort"
+	"strconv"
+	"strings"
+
+	kruisev1beta1 "github.com/openkruise/kruise-api/apps/v1beta1"
+	apps "k8s.io/api/apps/v1"
+	corev1 "k8s.io/api/core/v1"
+	metav1 "k8s.io/apimachinery/pkg/apis/meta/v1"
+)
+
+// Native StatefulSet controller model (podManagementPolicy OrderedReady, updateStrategy RollingUpdate with partition):
+//   - pods <name>-<ordinal>, created in ascending ordinal order, each only after its predecessors are ready;
+//   - scale-in removes the highest ordinal first;
+//   - rolling update walks the ordinals from the highest down to `partition`: a pod whose revision differs from the
+//     update revision is deleted (one at a time, only while every other pod is ready) and re-created with the update
+//     revision; pods below the partition keep the revision they have and, when re-created, get the current revision;
+//   - status: observedGeneration, replicas, readyReplicas, availableReplicas, currentReplicas, updatedReplicas,
+//     currentRevision, updateRevision; currentRevision catches up when every pod is updated and ready.
+// Revisions are "<name>-<hash of the pod template>" and pods carry them in the controller-revision-hash label, which is what
+// the code under test reads.
+
+// stsView is what the model needs from a native or an Advanced (kruise v1beta1) StatefulSet.
+type stsView struct {
+	obj         metav1.Object
+	name, ns    string
+	generation  int64
+	deleting    bool
+	replicas    int
+	partition   int
+	paused      bool // Advanced only
+	onDelete    bool
+	maxUnavail  int // Advanced only (native: 1)
+	minReady    int32
+	template    *corev1.PodTemplateSpec
+	ownerKind   metav1.OwnerReference
+	curRevision string
+	statusStr   func() string
+	writeStatus func(observedGen int64, replicas, ready, available, current, updated, updatedReady int32, curRev, updRev string) bool
+}
+
+func stsRevisionOf(name string, t *corev1.PodTemplateSpec) string {
+	b, _ := json.Marshal(t)
+	h := sha1.Sum(b)
+	return name + "-" + hex.EncodeToString(h[:])[:10]
+}
+
+func ordinalOf(name string) int {
+	i := strings.LastIndex(name, "-")
+	n, err := strconv.Atoi(name[i+1:])
+	if err != nil {
+		return -1
+	}
+	return n
+}
+
+func (e *Env) stepStatefulSets() string {
+	l := &apps.StatefulSetList{}
+	must(e.C.List(ctx(), l))
+	for i := range l.Items {
+		s := &l.Items[i]
+		v := &stsView{obj: s, name: s.Name, ns: s.Namespace, generation: s.Generation, deleting: s.DeletionTimestamp != nil, replicas: 1, maxUnavail: 1,
+			onDelete: s.Spec.UpdateStrategy.Type == apps.OnDeleteStatefulSetStrategyType, minReady: s.Spec.MinReadySeconds, template: &s.Spec.Template,
+			ownerKind: *metav1.NewControllerRef(s, apps.SchemeGroupVersion.WithKind("StatefulSet")), curRevision: s.Status.CurrentRevision}
+		if s.Spec.Replicas != nil {
+			v.replicas = int(*s.Spec.Replicas)
+		}
+		if ru := s.Spec.UpdateStrategy.RollingUpdate; ru != nil && ru.Partition != nil {
+			v.partition = int(*ru.Partition)
+		}
+		v.writeStatus = func(og int64, replicas, ready, available, current, updated, updatedReady int32, curRev, updRev string) bool {
+			st := s.Status.DeepCopy()
+			st.ObservedGeneration, st.Replicas, st.ReadyReplicas, st.AvailableReplicas, st.CurrentReplicas, st.UpdatedReplicas = og, replicas, ready, available, current, updated
+			st.CurrentRevision, st.UpdateRevision = curRev, updRev
+			if fmt.Sprint(*st) == fmt.Sprint(s.Status) {
+				return false
+			}
+			s.Status = *st
+			must(e.C.Status().Update(ctx(), s))
+			return true
+		}
+		if a := e.syncStatefulSet(v); a != "" {
+			return a
+		}
+	}
+	al := &kruisev1beta1.StatefulSetList{}
+	must(e.C.List(ctx(), al))
+	for i := range al.Items {
+		s := &al.Items[i]
+		v := &stsView{obj: s, name: s.Name, ns: s.Namespace, generation: s.Generation, deleting: s.DeletionTimestamp != nil, replicas: 1, maxUnavail: 1,
+			onDelete: s.Spec.UpdateStrategy.Type == apps.OnDeleteStatefulSetStrategyType, template: &s.Spec.Template,
+			ownerKind: *metav1.NewControllerRef(s, kruisev1beta1.SchemeGroupVersion.WithKind("StatefulSet")), curRevision: s.Status.CurrentRevision}
+		if s.Spec.Replicas != nil {
+			v.replicas = int(*s.Spec.Replicas)
+		}
+		if ru := s.Spec.UpdateStrategy.RollingUpdate; ru != nil {
+			if ru.Partition != nil {
+				v.partition = int(*ru.Partition)
+			}
+			v.paused = ru.Paused
+			if ru.MaxUnavailable != nil {
+				v.maxUnavail = int(resolve(ru.MaxUnavailable, "1", v.replicas, false))
+				if v.maxUnavail < 1 {
+					v.maxUnavail = 1
+				}
+			}
+			if ru.MinReadySeconds != nil {
+				v.minReady = *ru.MinReadySeconds
+			}
+		}
+		v.writeStatus = func(og int64, replicas, ready, available, current, updated, updatedReady int32, curRev, updRev string) bool {
+			st := s.Status.DeepCopy()
+			st.ObservedGeneration, st.Replicas, st.ReadyReplicas, st.AvailableReplicas, st.CurrentReplicas, st.UpdatedReplicas, st.UpdatedReadyReplicas = og, replicas, ready, available, current, updated, updatedReady
+			st.CurrentRevision, st.UpdateRevision = curRev, updRev
+			st.LabelSelector = metav1.FormatLabelSelector(s.Spec.Selector)
+			if fmt.Sprint(*st) == fmt.Sprint(s.Status) {
+				return false
+			}
+			s.Status = *st
+			must(e.C.Status().Update(ctx(), s))
+			return true
+		}
+		if a := e.syncStatefulSet(v); a != "" {
+			return a
+		}
+	}
+	return ""
+}
+
+func (e *Env) syncStatefulSet(s *stsView) string {
+	if s.deleting {
+		return ""
+	}
+	update := stsRevisionOf(s.name, s.template)
+	current := s.curRevision
+	if current == "" {
+		current = update
+	}
+	R, part := s.replicas, s.partition
+	pods := e.podsOf(s.ns, s.obj)
+	byOrd := map[int]*corev1.Pod{}
+	for _, p := range pods {
+		byOrd[ordinalOf(p.Name)] = p
+	}
+	unready := 0
+	for _, p := range byOrd {
+		if !podReady(p) {
+			unready++
+		}
+	}
+	mk := func(ord int, rev string) {
+		tmpl := s.template.DeepCopy()
+		if rev != update {
+			for _, p := range pods {
+				if p.Labels[apps.ControllerRevisionHashLabelKey] == rev {
+					tmpl = &corev1.PodTemplateSpec{ObjectMeta: metav1.ObjectMeta{Labels: map[string]string{}}, Spec: p.Spec}
+					for k, v := range p.Labels {
+						if k != apps.ControllerRevisionHashLabelKey && k != apps.StatefulSetPodNameLabel && !strings.HasPrefix(k, "rollouts.kruise.io/") {
+							tmpl.Labels[k] = v
+						}
+					}
+					break
+				}
+			}
+		}
+		labels := map[string]string{}
+		for k, v := range tmpl.Labels {
+			labels[k] = v
+		}
+		name := fmt.Sprintf("%s-%d", s.name, ord)
+		labels[apps.ControllerRevisionHashLabelKey] = rev
+		labels[apps.StatefulSetPodNameLabel] = name
+		p := e.newPod(s.ns, s.name, labels, tmpl.Spec, s.ownerKind, name)
+		must(e.C.Create(ctx(), p))
+	}
+	// 1. scale in: highest ordinal first
+	var ords []int
+	for o := range byOrd {
+		ords = append(ords, o)
+	}
+	sort.Ints(ords)
+	if n := len(ords); n > 0 && ords[n-1] >= R {
+		must(e.C.Delete(ctx(), byOrd[ords[n-1]]))
+		return "sts-delete-pod"
+	}
+	// 2. create the lowest missing ordinal (predecessors must be ready)
+	for o := 0; o < R; o++ {
+		if byOrd[o] != nil {
+			if !podReady(byOrd[o]) {
+				break // OrderedReady: wait for it
+			}
+			continue
+		}
+		rev := update
+		if o < part && current != update {
+			// below the partition a re-created pod keeps the current revision - if its template is still known
+			for _, p := range pods {
+				if p.Labels[apps.ControllerRevisionHashLabelKey] == current {
+					rev = current
+				}
+			}
+		}
+		mk(o, rev)
+		return "sts-create-pod"
+	}
+	// 3. rolling update from the highest ordinal down to the partition
+	if !s.onDelete && !s.paused && len(byOrd) == R {
+		for o := R - 1; o >= part && o >= 0; o-- {
+			p := byOrd[o]
+			if p == nil {
+				break
+			}
+			if p.Labels[apps.ControllerRevisionHashLabelKey] != update {
+				if unready < s.maxUnavail {
+					must(e.C.Delete(ctx(), p))
+					return "sts-recreate-pod"
+				}
+				break
+			}
+			if !podReady(p) && s.maxUnavail <= 1 {
+				break // wait for the updated pod before touching the next one
+			}
+		}
+	}
+	// 4. status
+	var ready, avail, updated, cur, updatedReady int32
+	for _, p := range pods {
+		if podReady(p) {
+			ready++
+			if available(s.minReady) {
+				avail++
+			}
+		}
+		if p.Labels[apps.ControllerRevisionHashLabelKey] == update {
+			updated++
+			if podReady(p) {
+				updatedReady++
+			}
+		}
+		if p.Labels[apps.ControllerRevisionHashLabelKey] == current {
+			cur++
+		}
+	}
+	if int(updated) == len(pods) && len(pods) == R && int(updatedReady) == R {
+		current, cur = update, updated
+	}
+	if s.writeStatus(s.generation, int32(len(pods)), ready, avail, cur, updated, updatedReady, current, update) {
+		return "sts-status"
+	}
+	return ""
+}
+
+func (e *Env) stepDaemonSets() string { return "" }
